@@ -127,16 +127,19 @@ CHECKS["C17"] = {
 
 CHECKS["C16"] = {
     "pkg": "connectionh",
-    "quick": {"wall_s": 20, "race_wall_s": 12, "race_max_runs": 1000},
-    "thorough": {"wall_s": 240, "race_wall_s": 120, "race_max_runs": 1800},
+    "pkgs": ["connectionh", "managerh"],
+    "quick": {"wall_s": 40, "race_wall_s": 16, "race_max_runs": 1000},
+    "thorough": {"wall_s": 400, "race_wall_s": 160, "race_max_runs": 1800},
     "rule": "Scenario: 2..5 tasks requesting and releasing connections (sometimes twice, sometimes from two goroutines at once, sometimes after a failed request) over 1..3 "
             "addresses with 1..3 cancellable contexts; scripted dial outcomes per address (success / error / blocked until its context is "
             "cancelled, each after an optional virtual delay); the ref++ -> wait-for-ready gap and the dial-failure path are scheduling "
             "points. Then every context is cancelled and every request must return. Oracles on stamps: at most one dial in flight per "
             "address, a connection is never closed before every holder released it and never handed out after it was closed, closed "
             "exactly once when all holders released, and a fresh request to an address nobody holds dials afresh. "
-            "Non-trivial: >= 2 tasks and >= 2 requests.",
-    "real": ["connection (instrumented)"],
+            "Second harness (managerh, half of the budget): the real target manager as the holder of the connections (targets sharing "
+            "an address, Remove / Reconnect during slow shared dials): once every target is removed, every connection that was "
+            "established has been closed. Non-trivial: >= 2 tasks and >= 2 requests.",
+    "real": ["connection (instrumented)", "manager (instrumented; second harness)"],
     "stub": ["grpc.ClientConn (simgrpc.ClientConn: Close/GetState only)", "dial functions (scripted by the harness)"],
     "assumptions": [],
 }
